@@ -20,7 +20,7 @@ class WsSession:
     """One connection.  carrier: 'h11' | 'h2'."""
 
     def __init__(self, carrier, app_steps, max_message=None, deflate=False, headers=None, raw_request=None,
-                 server_names=(), ping_interval=None, policy="fifo", seed=0, queue_size=None):
+                 server_names=(), ping_interval=None, policy="fifo", seed=0, queue_size=None, worker="asyncio"):
         from wsproto.connection import Connection, ConnectionType
         from wsproto.extensions import PerMessageDeflate
 
@@ -48,7 +48,7 @@ class WsSession:
         if carrier == "h11":
             import h11
 
-            self.rig = S.ProtoRig(app, cfg, self.driver)
+            self.rig = S.ProtoRig(app, cfg, self.driver, worker=worker)
             self.h11 = h11
             self.hc = h11.Connection(h11.CLIENT)
             self.hc.send(h11.Request(method="GET", target="/chat", headers=[("host", "example.com"), ("upgrade", "websocket"),
@@ -66,7 +66,7 @@ class WsSession:
             import h2.config
             import h2.connection
 
-            self.rig = S.ProtoRig(app, cfg, self.driver, alpn="h2", ssl=True)
+            self.rig = S.ProtoRig(app, cfg, self.driver, alpn="h2", ssl=True, worker=worker)
             self.h2c = h2.connection.H2Connection(h2.config.H2Configuration(client_side=True, header_encoding=None))
             self.h2c.initiate_connection()
             self.rig.feed(self.h2c.data_to_send())
